@@ -251,11 +251,21 @@ def ob_options():
         st.set_option(K('pbool', subproject=''), sym_bool('bool_value'))
         st.set_option(K('buildtype'), ['plain', 'debug', 'release'][choose(3, 'combo')])
         st.set_option(K('werror'), sym_bool('werror'))
+        # a subproject: a builtin option with a per-subproject override (or not), and a yielding project option
+        st.add_project_option(K('yb', subproject=''), O.UserBooleanOption('yb', 'd', decide(sym_bool('parent_yb'))))
+        st.initialize_from_top_level_project_call({}, {}, {})
+        st.add_project_option(K('yb', subproject='sub'), O.UserBooleanOption('yb', 'd', decide(sym_bool('sub_yb_default')), yielding=True))
+        st.initialize_from_subproject_call('sub', {}, {}, {}, {})
+        if decide(sym_bool('sub_override')):
+            st.set_from_configure_command({K('warning_level', subproject='sub'): ['0', '2', '3'][choose(3, 'sub_warning_level')]})
         cd = types.SimpleNamespace(optstore=st)
-        lst = MT._list_buildoptions(cd)
+        lst = MT._list_buildoptions(cd, ['sub'])
         seen = {}
         for o in lst:
             seen[o['name']] = o
+        for name, key in (('sub:warning_level', K('warning_level', subproject='sub')), ('sub:yb', K('yb', subproject='sub')), ('yb', K('yb', subproject='')), ('warning_level', K('warning_level'))):
+            check(name in seen, 'subproject options are reported')
+            if name in seen: check(eq(seen[name]['value'], st.get_value_for(key)), 'the reported value is the one get_option() returns in that (sub)project')
         for name, key in (('pint', K('pint', subproject='')), ('pbool', K('pbool', subproject='')), ('debug', K('debug')), ('optimization', K('optimization')), ('werror', K('werror')), ('prefix', K('prefix')), ('buildtype', K('buildtype'))):
             check(name in seen, 'every option is reported')
             if name in seen: check(eq(seen[name]['value'], st.get_value_for(key)), 'the reported value is the one get_option() returns')
